@@ -17,6 +17,8 @@ import (
 	"testing"
 	"time"
 
+	"github.com/bokysan/socketace/v2/internal/streams/dns/util"
+	"github.com/bokysan/socketace/v2/internal/util/enc"
 	"github.com/bokysan/socketace/v2/verifharness/bubble"
 	"github.com/bokysan/socketace/v2/verifharness/mc"
 	"github.com/bokysan/socketace/v2/verifharness/netsim"
@@ -28,10 +30,11 @@ type Case struct {
 	Stall    string `json:"stall"`
 	Stallers int    `json:"stallers"`
 	Good     int    `json:"good"`
+	AgeMin   int    `json:"age_min,omitempty"` // fake minutes the stalled peers stay connected before the well-behaved clients arrive
 }
 
 func (c Case) String() string {
-	return fmt.Sprintf("%s stall=%s stallers=%d good=%d", c.Endpoint, c.Stall, c.Stallers, c.Good)
+	return fmt.Sprintf("%s stall=%s stallers=%d good=%d stalledFor=%dmin", c.Endpoint, c.Stall, c.Stallers, c.Good, c.AgeMin)
 }
 
 const announce = "X-SOCKETACE / HTTP/1.1\r\nAccepts-Protocol-Version: v2.0.0\r\nUser-Agent: staller\r\n\r\n"
@@ -52,7 +55,7 @@ func handshakeStallPoints(endpoint string) []string {
 	case "socket+tls":
 		return []string{"after-connect", "partial-tls-hello", "tls-then-silence", "tls-partial-request-line"}
 	case "dns":
-		return []string{"hello-only", "hello-then-partial-announce"}
+		return []string{"version-only", "hello-only", "hello-then-partial-announce"}
 	case "http":
 		return []string{"after-connect", "partial-http-request", "ws-then-silence", "ws-then-partial-announce"}
 	}
@@ -105,6 +108,18 @@ func stall(w *world.World, c Case) (alive func() bool, err error) {
 		conn, _, err := w.Dns.NewClientConn()
 		if err != nil {
 			return nil, err
+		}
+		if c.Stall == "version-only" {
+			// the peer obtains a session slot and then never sends another query (no poll loop)
+			qt := util.QueryTypeNull
+			conn.Serializer.Upstream.QueryType = &qt
+			conn.Serializer.Upstream.Encoder = enc.Base32Encoding
+			conn.Serializer.Downstream.Encoder = enc.Base32Encoding
+			conn.Serializer.Upstream.FragmentSize = 60
+			go conn.VersionHandshake()
+			bubble.Wait()
+			bubble.Advance(2 * time.Second)
+			return func() bool { return !conn.Closed() }, nil
 		}
 		go func() {
 			// a complete DNS-tunnel handshake creates the session on the server (its Accept returns
@@ -189,6 +204,13 @@ func execute(t *testing.T, c Case) (kind, detail string) {
 			}
 			alive = append(alive, a)
 		}
+		if c.AgeMin > 0 {
+			// the stalled peers stay for a while: whatever the server does about them in the
+			// meantime (time-outs, pruning) must not cost the others their service
+			for i := 0; i < c.AgeMin; i++ {
+				bubble.Advance(time.Minute)
+			}
+		}
 		// well-behaved clients arrive now; no fake time passes (except the DNS exchange timers,
 		// which need the clock: DNS clients get a bounded fake-time allowance that is far below
 		// any time-out that would make the stallers go away)
@@ -269,7 +291,13 @@ func cases(thorough bool) []Case {
 		for _, st := range stallPoints(ep) {
 			for _, stallers := range sts {
 				for _, good := range goods {
-					out = append(out, Case{ep, st, stallers, good})
+					out = append(out, Case{Endpoint: ep, Stall: st, Stallers: stallers, Good: good})
+					if good == 1 || thorough {
+						out = append(out, Case{Endpoint: ep, Stall: st, Stallers: stallers, Good: good, AgeMin: 7})
+					}
+					if thorough {
+						out = append(out, Case{Endpoint: ep, Stall: st, Stallers: stallers, Good: good, AgeMin: 31})
+					}
 				}
 			}
 		}
@@ -283,7 +311,7 @@ func record(r *mc.Run, c Case, kind, detail string) {
 	r.State(mc.Hash(c.String(), kind))
 	r.Nontrivial(mc.Hash(c.String()))
 	if kind != "" {
-		r.Fail(fmt.Sprintf("%s|%s|%s", kind, c.Endpoint, c.Stall), fmt.Sprintf("%s: %s", c, detail), c.Stallers*10+c.Good, c)
+		r.Fail(fmt.Sprintf("%s|%s|%s%s", kind, c.Endpoint, c.Stall, map[bool]string{true: "|aged", false: ""}[c.AgeMin > 0]), fmt.Sprintf("%s: %s", c, detail), c.Stallers*10+c.Good, c)
 	}
 }
 
